@@ -29,7 +29,8 @@
     contents (a flag), URI spelling rules of the publication server (C10), RRDP. A request limit
     is one optional atom mask (the harness always limits all three families at once).
     Identity keys, child keys (the keys certificates are issued for), handles, class names and
-    object contents are numbers chosen by the harness. *)
+    object contents are numbers chosen by the harness. Line numbers refer to /repo at 66ff1465
+    (later fix commits shift certauth.rs by a few lines). *)
 From KV Require Import base.Tac ident.Msg.
 Open Scope N_scope.
 
